@@ -188,6 +188,16 @@ def apply_patch(img: bytearray, kind, rng, fam: str, info: dict):
                     f = max(used + [40]) + 1
                     put16(img, 1802 + 2 * ch[0], f)
                     put16(img, 1802 + 2 * f, f)
+            elif kind == "sat-runaway":
+                # one chain through (nearly) every free entry of the table whose last word leaves the table without being
+                # a flag word (an end mark read as 0x3000 / 0xFFFF / the table size): S168 - the decoder must stay linear
+                first = max(used + [40]) + 1
+                last = 11385 - rng.choice([0, 1, 300])
+                for j in range(first, last):
+                    put16(img, 1802 + 2 * j, j + 1)
+                put16(img, 1802 + 2 * last, rng.choice([0x3000, 0xFFFF, 11386, 0xC001]))
+                ch = max(info["chains"] or [[3]], key=len)
+                put16(img, 1802 + 2 * ch[-1], first)
             elif kind == "sat-noise":
                 for _ in range(rng.randint(5, 400)):
                     put16(img, 1802 + 2 * rng.randrange(0, 11386), rng.choice(AKAI_SPECIAL + [rng.randrange(65536), rng.randrange(0, 64)]))
@@ -447,7 +457,7 @@ def make_specs(ctx, rng, full: bool):
         add(family="rand", size=30000, prefix="akai", psize=ps)
     for k in range(2 if not full else 8):
         add(family="rand", size=0, prefix="sparse-roland", noise=rng.choice([0, 200, 5000, 40000]))
-    akai_kinds = ["phantom-chain", "truncate", "sat-special", "sat-link", "sat-2cycle", "sat-rho", "sat-noise", "psize", "volentry", "volstart", "dir", "filehdr", "burst"]
+    akai_kinds = ["phantom-chain", "truncate", "sat-special", "sat-link", "sat-2cycle", "sat-rho", "sat-runaway", "sat-noise", "psize", "volentry", "volstart", "dir", "filehdr", "burst"]
     rol_kinds = ["key-interleave", "phantom-chain", "truncate", "fat-special", "fat-link", "fat-2cycle", "fat-selfloop", "fat-noise", "fat-longcycle", "counts", "ptrlist", "partial", "samplepar", "sampledir", "burst"]
     for pv in (0, 1, 0xFFFF):
         for pw in ("first", "last"):
@@ -490,7 +500,7 @@ def run(ctx, rep: Report, deep: bool = False):
     full = deep or not ctx.quick
     rep.rule = (
         "malformed inputs: random byte strings (0 B - 300 KiB; bare, behind an AKAI partition header, behind a Roland ID area incl. sparse 2.9 MB images, as the body of a cue sheet); generated AKAI / Roland / CDDA images with 1-3 corruptions "
-        "(SAT/FAT words set to each special value, to in-range links, to 2-cycles / self loops / long cycles outside any file, a file's tail linked back into its own middle (a cycle that does not contain the head), table noise; partition size, volume entries, directory and header bytes; Roland counts, pointer lists, partial slots, sample records; "
+        "(SAT/FAT words set to each special value, to in-range links, to 2-cycles / self loops / long cycles outside any file, a file's tail linked back into its own middle (a cycle that does not contain the head), a chain through every free table entry that leaves the table without an end mark, table noise; partition size, volume entries, directory and header bytes; Roland counts, pointer lists, partial slots, sample records; "
         "cue lines dropped / duplicated / garbled, kilobyte-long titles and lines, up to 12000 (thorough: 20000) tracks of one title (S80: the de-duplication of equal sibling names must stay near-linear), huge numbers, missing or short bin); each input: ls at the root and two levels down + export in a forked child under RLIMIT_CPU / RLIMIT_AS; "
         "oracle: finished (result or error) inside the bounds; model tie: same outcome class and, when both finish normally, same results; distinct = distinct input spec; non-trivial = every input (all are malformed or adversarial by construction)"
     )
